@@ -6,6 +6,7 @@ import (
 	"sync"
 
 	"verif/contract"
+	"verif/frame"
 	"verif/symex"
 )
 
@@ -159,6 +160,12 @@ func init() {
 		Generate: func(env *Env) *Gen {
 			g := genStandard(env, "C11", false, nil)
 			g.Static = append(g.Static, lemmaResults(env, []string{"SortCanonical.lean"})...)
+			if fn := env.Prog.Func("pkg/aa", "(Rules).Sort"); fn != nil {
+				g.addFunc(env, fn)
+				g.Static = append(g.Static, frame.SortByComparator(env.Prog, fn, "(Rules).Sort$1"))
+			} else {
+				g.OutOfDate = append(g.OutOfDate, "pkg/aa:(Rules).Sort")
+			}
 			g.Unverified = []string{
 				"behaviour of slices.SortFunc itself (trusted: permutation; sorted w.r.t. a comparator that satisfies the four laws)",
 				"the step from the order laws to 'sorting is idempotent and independent of the input order' is the Lean lemma sorted_perm_unique / sort_idempotent / sort_perm_invariant (lemmas/SortCanonical.lean: compiled in the thorough tier, digest-checked in the quick tier), given that slices.SortFunc returns a sorted permutation",
